@@ -297,11 +297,27 @@ class SplitSock(env._PlainSocket):
         acq = [x for x in (lk.log if lk is not None else []) if x[0] == me and x[1] == 'acquire']
         snap = acq[-1][2] if (acq and lk.owner == me) else {'lock': 'not held'}
         w.log.append(('write-part', self.id, it[:h], me, snap))
+        if getattr(w, 'stall_thread', None) == me:
+            # flow control: the peer is busy pushing its own data and does not read ours until we have read its bytes, so
+            # this sendall cannot complete before the event loop has performed another recv
+            nrecv = len([e for e in w.log if e[0] == 'recv'])
+            while self.script is not None and self.script.remaining() > 0 and len([e for e in w.log if e[0] == 'recv']) == nrecv:
+                w.sched.block(me, 'peer-not-reading')
         w.sched.point(me, 'sendall-mid')
         w.log.append(('write-part', self.id, it[h:], me, snap))
 
+    def recv_into(self, buf, n=0):
+        r = env._PlainSocket.recv_into(self, buf, n)
+        self.w.sched.unblock_waiters('peer-not-reading')
+        return r
+
 
 BIG = 70000
+PROXY_ANSWER = b'HTTP/1.1 200 Connection established\r\n\r\n'
+
+
+def _count_sub(items, sub):
+    return sum(1 for i in range(len(items) - len(sub) + 1) if items[i:i + len(sub)] == sub)
 
 
 def make_ws(c, w, sched, compress_cfg=None):
@@ -385,6 +401,15 @@ def run_sched(c, P):
                     pay = [c.byte('%s_g%d' % (name, i))] + [(k * 7 + 3) & 0xFF for k in range(BIG - 1)]
                     ws.send_binary(mk_bytes(pay))
                     sent[name].append((2, pay))
+                elif op == 'send_stalled':
+                    # a send whose sendall is held up by flow control until the loop reads (see SplitSock.sendall)
+                    b = c.int('%s_s%d' % (name, i), 7)
+                    w.stall_thread = name
+                    try:
+                        ws.send_text(mk_str([b]) if c.concrete is None else chr(b))
+                    finally:
+                        w.stall_thread = None
+                    sent[name].append((1, [b]))
                 elif op == 'send_ping':
                     pay = [c.byte('%s_p%d' % (name, i))]
                     ws.send_ping(mk_bytes(pay))
@@ -429,6 +454,14 @@ def run_sched(c, P):
         ping = [c.byte('%s_ping' % name)]
         w.sock_class = SplitSock
         w.default_script = Script(hconn.server_stream([0x89, 0x01] + ping), cuts='one', end='eof')
+        if P.get('hs_separate'):
+            # the upgrade reply arrives in its own read, the Ping in a later one
+            w.default_script = HsThenCuts(w, hconn.server_stream([0x89, 0x01] + ping), 'one', end='eof')
+        if P.get('proxy'):
+            # the socket is the proxy's: it answers the CONNECT, then carries the websocket handshake
+            sc = Script(lambda w_, s_: list(PROXY_ANSWER), cuts='one', end='eof')
+            sc.phases.append(lambda w_, s_: (hconn.reply_101(w_, s_) + [0x89, 0x01] + ping) if hconn.request_key(w_, s_) else None)
+            w.default_script = sc
         out = []
         try:
             for ev in ws.connect(poll=1e9, ping_rate=0, ping_timeout=None, close_timeout=None):
@@ -444,14 +477,18 @@ def run_sched(c, P):
             state['ready'] = True
             sched.unblock_waiters('ready-gate')
         results[name] = [('loop', 'ok', None)]
+        state['loop_events'] = out
         return out
     state = {'ready': not any(ops == ['loop'] for ops in plan)}
     if not state['ready']:
         from lomond import WebSocket as _WS
-        ws = _WS('ws://example.com/')
+        ws = _WS('ws://example.com/', proxies={'http': 'http://proxy.local:3128'} if P.get('proxy') else {})
 
     def gated(name, ops):
-        # application threads only start sending once the connection is Ready
+        # application threads only start sending once the connection is Ready -- except 'early_*' operations, which
+        # may run at any moment of the connection set-up (they are expected to be refused with a WebSocketError)
+        if ops and ops[0].startswith('early_'):
+            return do(name, [o[len('early_'):] for o in ops])
         while not state['ready']:
             sched.block(name, 'ready-gate')
         return do(name, ops)
@@ -492,6 +529,26 @@ def run_sched(c, P):
     # a frame is torn if its two halves are not adjacent
     for i in range(0, len(parts) - 1):
         pass
+    if P.get('proxy') and wire[:8] == list(b'CONNECT '):
+        # the CONNECT request precedes the frames on a proxied socket
+        for i in range(len(wire) - 3):
+            if wire[i:i + 4] == [13, 10, 13, 10]:
+                skip = i + 4
+                break
+        else:
+            skip = len(wire)
+        wire = wire[skip:]
+        # (frame offsets below are relative to the first byte after the request)
+        pos, parts2 = 0, []
+        for e in parts:
+            n = len(e[2])
+            if pos + n <= skip:
+                pos += n
+                continue
+            cut = max(0, skip - pos)
+            parts2.append(e[:2] + (e[2][cut:],) + e[3:])
+            pos += n
+        parts = parts2
     try:
         frames = refmodel.decode_client_frames(wire)
     except refmodel.WireError as e:
@@ -580,6 +637,41 @@ def run_sched(c, P):
             c.fail('C11: %d message(s) never reached the wire' % sum(len(q) for q in left.values()),
                    sig='C11: message lost')
         cls.add('frames:%d' % len(frames))
+    if 'C18' in tags:
+        # the loop must have delivered the server's Ping (and written its Pong) although an application send was stalled:
+        # receiving never waits for a sender (a deadlock was reported above)
+        loop_names = [n for n, ops in zip(sorted(bodies), plan) if ops == ['loop']]
+        pongs = [f for f in frames if f['opcode'] == 10]
+        if state.get('loop_events') is not None and 'ping' not in state['loop_events']:
+            c.fail('C18: the Ping that was available was not delivered (loop events %s)' % state['loop_events'])
+        if len(pongs) != 1:
+            c.fail('C18: %d Pongs written for one Ping' % len(pongs))
+        cls.add('stalled' if any(s_[2] == 'blocked:peer-not-reading' for s_ in sched.switches) else 'not-stalled')
+    if 'C19' in tags:
+        # nothing but the CONNECT request may be written to the proxy socket until its answer has been read completely --
+        # whichever thread tries
+        consumed, answer_at = 0, None
+        for i, e in enumerate(w.log):
+            if e[0] == 'recv':
+                consumed += e[2]
+                if answer_at is None and consumed >= len(PROXY_ANSWER):
+                    answer_at = i
+        early = [(i, e) for i, e in enumerate(w.log) if e[0] in ('write-part', 'write') and (answer_at is None or i < answer_at)]
+        loop_thread = [n for n, ops in zip(sorted(bodies), plan) if ops == ['loop']]
+        own = []
+        for i, e in early:
+            who = e[3] if e[0] == 'write-part' else None
+            if e[0] == 'write-part' and who in loop_thread:
+                own.extend(e[2])
+                continue
+            c.fail('C19: %d bytes written to the proxy socket by thread %s before the proxy had answered' % (len(items_of(e[2])), who),
+                   sig='C19: write before the proxy answered (other thread)')
+        if own and (own[:8] != list(b'CONNECT ') or own[-4:] != [13, 10, 13, 10] or own.count(10) != own[:].count(13)
+                    or _count_sub(own, [13, 10, 13, 10]) != 1):
+            c.fail('C19: the loop thread wrote something other than one CONNECT request before the proxy answered')
+        # (how the early send is refused - WebSocketUnavailable, or an AttributeError before a session exists - is not
+        #  C19's business)
+        cls.add('answer-read' if answer_at is not None else 'no-answer')
     if 'C12' in tags:
         # (checks that no recorded finding touches come first; the two Close-related ones are reported and passed over
         #  when they match a recorded finding)
